@@ -47,15 +47,16 @@ REJECTIONS = {
 
 
 @st.composite
-def histories(draw):
+def histories(draw, first=None):
     prof = Profile(vrl=[512, 8192], max_frames=2, max_channels=3, max_rows=5, max_width=2, meta_kinds=META,
                    max_meta=5, units=False, name_pool=['P', 'Q', 'R-1'], byte_orders=('<',), noformat=0)
     spec = draw(file_specs(prof))
     ops = spec['lfs'][0]['ops']
     nbad = draw(st.integers(1, 3))
-    for _ in range(nbad):
-        kind = draw(st.sampled_from(sorted(REJECTIONS) + ['wrong-type-value:origin', 'wrong-type-value:origin',
-                                                         'wrong-type-value:frame']))
+    for nb in range(nbad):
+        kind = first if (nb == 0 and first) else \
+            draw(st.sampled_from(sorted(REJECTIONS) + ['wrong-type-value:origin', 'wrong-type-value:origin',
+                                                       'wrong-type-value:frame']))
         bad = copy.deepcopy(REJECTIONS[kind])
         bad['bad'] = kind
         t = bad['t']
@@ -156,20 +157,26 @@ def same_inventory(a, b):
 
 
 @st.composite
-def failed_writes(draw):
+def failed_writes(draw, stratum=None):
     prof = Profile(vrl=[512, 8192], max_frames=2, max_channels=3, max_rows=5, max_width=3,
                    meta_kinds=('zone', 'parameter', 'comment', 'equipment'), max_meta=3, units=False,
                    byte_orders=('<',), sources=('dict',))
     spec = draw(file_specs(prof))
-    damage = draw(st.sampled_from(['missing-data', 'bad-ocs', 'wrong-dimension', 'bad-window', 'hc-signed',
-                                   'hc-nonuniform-index', 'hc-nonuniform-index', 'rejected-assignment',
-                                   'rejected-assignment', 'rejected-assignment']))
+    damage = stratum.split('/')[0] if stratum else \
+        draw(st.sampled_from(['missing-data', 'bad-ocs', 'wrong-dimension', 'bad-window', 'hc-signed',
+                              'hc-nonuniform-index', 'hc-nonuniform-index', 'rejected-assignment',
+                              'rejected-assignment', 'rejected-assignment']))
     case = {'kind': 'failed-write', 'spec': spec, 'damage': damage, 'sel': draw(st.integers(0, 50))}
     if damage == 'rejected-assignment':
         case['assign'] = draw(st.lists(st.tuples(st.sampled_from(sorted(BAD_ASSIGNMENTS)), st.integers(0, 7)),
-                                       min_size=1, max_size=3))
+                                       min_size=0 if stratum else 1, max_size=2 if stratum else 3))
+        if stratum:
+            case['assign'] = [(stratum.split('/')[1], draw(st.integers(0, 7)))] + case['assign']
         case['derive_index'] = draw(st.booleans())
     return case
+
+
+DAMAGES = ['missing-data', 'bad-ocs', 'wrong-dimension', 'bad-window', 'hc-signed', 'hc-nonuniform-index']
 
 
 # (object kind, attribute, value that the attribute's converter rejects)
@@ -215,9 +222,14 @@ class C20(Property):
         return d
 
     def searches(self, ctx):
-        n = 640 if ctx.tier == 'quick' else 8000
-        m = 320 if ctx.tier == 'quick' else 4000
-        return [('rejected-calls', histories(), n // ctx.nshards), ('failed-writes', failed_writes(), m // ctx.nshards)]
+        n = 960 if ctx.tier == 'quick' else 9600
+        m = 640 if ctx.tier == 'quick' else 6400
+        from vf.core import stratified
+        # one stratum per kind of rejected call (the first one of the history), per kind of failed write and per rejected
+        # assignment: none of them may depend on how Hypothesis happens to spread a sampled_from
+        return stratified('rej', lambda k: histories(k), sorted(REJECTIONS), n, ctx) + \
+            stratified('fw', lambda d: failed_writes(d), DAMAGES + ['rejected-assignment/' + k
+                                                                   for k in sorted(BAD_ASSIGNMENTS)], m, ctx)
 
     def run(self, case, ctx):
         dw.check_import_location()
